@@ -250,45 +250,202 @@ def _int(v):
     return -1 if v is None else int(v)
 
 
+CYCLE_NONE = dict(done=False, inimg=[], reads=[], writes=[], exc="")
+
+
+def _snapshot(t, st, r):
+    """what the terminal object and the simulated device hold after initialize"""
+    r["table"] = _table(t)
+    r["sizes"] = dict(out=_int(getattr(t, "pdo_out_sz", None)), inp=_int(getattr(t, "pdo_in_sz", None)))
+    r["smregs"] = [dict(len=struct.unpack_from("<H", st.mem, 0x802 + 8 * k)[0], act=st.mem[0x806 + 8 * k] & 1)
+                   for k in range(8)]
+    if st.srv is not None:
+        for key, idx in (("out", 0x1c12), ("inp", 0x1c13)):
+            v0 = st.srv.od.get((idx, False, 0))
+            if v0 is not None and len(v0) >= 1:
+                ents = []
+                for s in range(1, v0[0] + 1):
+                    v = st.srv.od.get((idx, False, s), b"")
+                    ents.append(struct.unpack("<H", v)[0] if len(v) == 2 else -1)
+                r["assigned"][key] = dict(n=v0[0], pdos=ents)
+    if r["init"]["status"] == "ok":
+        for d in r["decls"]:
+            d["res"] = _resolve(t, d["path"])
+
+
+def _new_run(inf, it):
+    r = dict(cls={k: inf[k] for k in ("name", "hascompat", "compat", "named", "generic")},
+             outp=inf["outp"], inp=inf["inp"], svcs=inf["svcs"],
+             decls=[dict(d, res=dict(RES_NONE, status="notrun")) for d in inf["decls"]],
+             init=dict(status="notrun", exc=""), table=[], bits=dict(out=-1, inp=-1),
+             sizes=dict(out=-1, inp=-1), smregs=[],
+             assigned=dict(out=dict(n=-1, pdos=[]), inp=dict(n=-1, pdos=[])), cycle=dict(done=False, inimg=[], reads=[], writes=[], exc=""))
+    r["probe"] = bool(it.get("probe"))
+    if r["probe"]:
+        r["cls"]["generic"] = True          # a probe class is made for the device it runs on
+    for key, attr in (("outp", "out_pdos"), ("inp", "in_pdos")):
+        if it.get(attr) is not None:
+            r[key] = dict(set=True, pdos=list(it[attr]))
+    return r
+
+
+async def _initialize(t, i, r):
+    from ebpfcat.ethercat import EtherCatError
+    real_parse = t.parse_pdos
+
+    async def parse_pdos():
+        ret = await real_parse()
+        r["bits"] = dict(out=_int(ret[0]), inp=_int(ret[1]))
+        return ret
+    t.parse_pdos = parse_pdos
+    try:
+        await t.initialize(-i, i + 1)
+        r["init"] = dict(status="ok", exc="")
+    except EtherCatError as e:
+        r["init"] = dict(status="incompatible" if str(e).startswith("Incompatible Terminal") else "exception",
+                         exc=f"EtherCatError: {e}"[:200])
+    except Exception as e:
+        r["init"] = dict(status="exception", exc=f"{type(e).__name__}: {e}"[:200])
+
+
+def _value(v):
+    """a Python value read from / written to a process variable, as data (16-byte two's complement)"""
+    if isinstance(v, bool):
+        return dict(kind="bit", b=v, w=[])
+    if isinstance(v, int) and -2 ** 127 <= v < 2 ** 127:
+        return dict(kind="int", b=False, w=list(v.to_bytes(16, "little", signed=True)))
+    return dict(kind="other", b=False, w=[], repr=repr(v)[:60])
+
+
+def run_cycle(item, rng, rounds=2):
+    """one terminal on its own segment: the real initialize, then a REAL SyncGroup (slow path) with one
+    device that links every declared variable.  The device's input area holds a random image; update()
+    reads every variable once, then writes one output variable per cycle; the device's output area is
+    recorded at every cycle.  -> run record with `cycle`"""
+    import asyncio
+    from ebpfcat.ebpfcat import Device, SyncGroup, TerminalVar
+    from ebpfcat.ethercat import EtherCat
+    st = device(item["record"], "T0")
+    bus = simbus.SimBus([st])
+    r = _new_run(class_info(item["cls"]), item)
+    cyc = r["cycle"]
+    holder = {}
+
+    async def main():
+        ec = EtherCat("x")
+        simbus.attach(ec, bus)
+        t = holder["t"] = item["cls"](ec)
+        await _initialize(t, 0, r)
+        _snapshot(t, st, r)
+        if r["init"]["status"] != "ok" or any(d["res"]["status"] != "ok" for d in r["decls"]) or not r["decls"]:
+            return
+        names = [f"v{k}" for k in range(len(r["decls"]))]
+        dev = type("Linked", (Device,), {n: TerminalVar() for n in names})()
+        for n, d in zip(names, r["decls"]):
+            obj = t
+            for p in d["path"]:
+                obj = getattr(obj, p)
+            setattr(dev, n, obj)
+        insz, outsz = t.pdo_in_sz or 0, t.pdo_out_sz or 0
+        inimg = bytes(rng.randrange(256) for _ in range(insz))
+        if insz:
+            st.mem[t.pdo_in_off:t.pdo_in_off + insz] = inimg
+        cyc["inimg"] = list(inimg)
+        outs = [k for k, d in enumerate(r["decls"]) if d["res"]["sm"] == "OUT"]
+        # round 0 switches everything on in declaration order, round 1 off in reverse order (so that a write
+        # that touches a neighbour is seen against a background of ones), further rounds in random order
+        plan = []
+        for rnd in range(rounds):
+            order = list(outs) if rnd == 0 else list(reversed(outs)) if rnd == 1 else rng.sample(outs, len(outs))
+            plan += [(k, rnd) for k in order]
+        mems, done = [], asyncio.Event()
+        state = dict(n=0)
+
+        def outmem():
+            return list(st.mem[t.pdo_out_off:t.pdo_out_off + outsz]) if outsz else []
+
+        def choose(d, rnd):
+            res = d["res"]
+            if res["bit"] >= 0:
+                return rnd == 0 if rnd < 2 else rng.random() < 0.5
+            f = res["fmt"]
+            if len(f) == 1 and f in "bhilq":
+                w = struct.calcsize("<" + f)
+                return rng.randrange(-2 ** (8 * w - 1), 2 ** (8 * w - 1)) if rnd != 1 else -2
+            if len(f) == 1 and f in "BHILQ":
+                w = struct.calcsize("<" + f)
+                return rng.randrange(1, 2 ** (8 * w))
+            if f.endswith(("s", "p")):
+                return bytes(rng.randrange(1, 256) for _ in range(rng.randrange(1, struct.calcsize("<" + f))))
+            return None
+
+        def update():
+            n = state["n"]
+            state["n"] += 1
+            mems.append(outmem())
+            try:
+                if n == 0:
+                    for k, (nm, d) in enumerate(zip(names, r["decls"])):
+                        cyc["reads"].append(dict(k=k + 1, val=_value(getattr(dev, nm))))
+                if n >= 1 and n - 1 < len(plan):        # the write of the previous cycle has reached the device
+                    cyc["writes"][n - 1]["after"] = mems[n]
+                if n < len(plan):
+                    k, rnd = plan[n]
+                    v = choose(r["decls"][k], rnd)
+                    w = dict(k=k + 1, val=_value(v), before=mems[n], after=[], status="ok")
+                    cyc["writes"].append(w)
+                    if v is None:
+                        w["status"] = "novalue"
+                    else:
+                        try:
+                            setattr(dev, names[k], v)
+                        except Exception as e:
+                            w["status"] = f"{type(e).__name__}: {e}"[:120]
+                else:
+                    done.set()
+            except Exception as e:
+                cyc["exc"] = f"update: {type(e).__name__}: {e}"[:200]
+                done.set()
+        dev.update = update
+        sg = SyncGroup(ec, [dev])
+        task = sg.start()
+        waiter = asyncio.ensure_future(done.wait())
+        await asyncio.wait([waiter, task], return_when=asyncio.FIRST_COMPLETED)
+        if task.done() and not task.cancelled() and task.exception() is not None:
+            cyc["exc"] = f"sync group: {type(task.exception()).__name__}: {task.exception()}"[:200]
+        waiter.cancel()
+        task.cancel()
+        try:
+            await task
+        except (asyncio.CancelledError, Exception):
+            pass
+        cyc["done"] = not cyc["exc"] and all(w["after"] or not outsz for w in cyc["writes"])
+
+    logging.disable(logging.CRITICAL)
+    try:
+        simloop.run(main, budget=600000)
+    except simloop.StallError as e:
+        if r["init"]["status"] == "notrun":
+            r["init"] = dict(status="stall", exc=str(e))
+        cyc["exc"] = cyc["exc"] or f"stall: {e}"
+        cyc["done"] = False
+    finally:
+        logging.disable(logging.NOTSET)
+    r["frames"] = bus.frames
+    return r
+
+
 def run_segment(items, budget=None):
     """items: [dict(record=..., cls=<class>, out_pdos=None|[..], in_pdos=None|[..])] -> [run record]"""
     from ebpfcat.ethercat import EtherCat, EtherCatError
     import asyncio
     devs = [device(it["record"], f"T{i}") for i, it in enumerate(items)]
     bus = simbus.SimBus(devs)
-    infos = [class_info(it["cls"]) for it in items]
-    runs = [dict(cls={k: inf[k] for k in ("name", "hascompat", "compat", "named", "generic")},
-                 outp=inf["outp"], inp=inf["inp"], svcs=inf["svcs"],
-                 decls=[dict(d, res=dict(RES_NONE, status="notrun")) for d in inf["decls"]],
-                 init=dict(status="notrun", exc=""), table=[], bits=dict(out=-1, inp=-1),
-                 sizes=dict(out=-1, inp=-1), smregs=[], assigned=dict(out=dict(n=-1, pdos=[]), inp=dict(n=-1, pdos=[])))
-            for inf in infos]
-    for it, r in zip(items, runs):
-        r["probe"] = bool(it.get("probe"))
-        if r["probe"]:
-            r["cls"]["generic"] = True          # a probe class is made for the device it runs on
-        for key, attr in (("outp", "out_pdos"), ("inp", "in_pdos")):
-            if it.get(attr) is not None:
-                r[key] = dict(set=True, pdos=list(it[attr]))
+    runs = [_new_run(class_info(it["cls"]), it) for it in items]
     terms = []
 
     async def one(i, t):
-        r = runs[i]
-        real_parse = t.parse_pdos
-
-        async def parse_pdos():
-            ret = await real_parse()
-            r["bits"] = dict(out=_int(ret[0]), inp=_int(ret[1]))
-            return ret
-        t.parse_pdos = parse_pdos
-        try:
-            await t.initialize(-i, i + 1)
-            r["init"] = dict(status="ok", exc="")
-        except EtherCatError as e:
-            r["init"] = dict(status="incompatible" if str(e).startswith("Incompatible Terminal") else "exception",
-                             exc=f"EtherCatError: {e}"[:200])
-        except Exception as e:
-            r["init"] = dict(status="exception", exc=f"{type(e).__name__}: {e}"[:200])
+        await _initialize(t, i, runs[i])
 
     async def main():
         ec = EtherCat("x")
@@ -311,22 +468,7 @@ def run_segment(items, budget=None):
                 r["init"] = dict(status="stall", exc=str(e))
     finally:
         logging.disable(logging.NOTSET)
-    for i, (t, st, r) in enumerate(zip(terms, devs, runs)):
-        r["table"] = _table(t)
-        r["sizes"] = dict(out=_int(getattr(t, "pdo_out_sz", None)), inp=_int(getattr(t, "pdo_in_sz", None)))
-        r["smregs"] = [dict(len=struct.unpack_from("<H", st.mem, 0x802 + 8 * k)[0], act=st.mem[0x806 + 8 * k] & 1)
-                       for k in range(8)]
-        if st.srv is not None:
-            for key, idx in (("out", 0x1c12), ("inp", 0x1c13)):
-                v0 = st.srv.od.get((idx, False, 0))
-                if v0 is not None and len(v0) >= 1:
-                    ents = []
-                    for s in range(1, v0[0] + 1):
-                        v = st.srv.od.get((idx, False, s), b"")
-                        ents.append(struct.unpack("<H", v)[0] if len(v) == 2 else -1)
-                    r["assigned"][key] = dict(n=v0[0], pdos=ents)
-        if r["init"]["status"] == "ok":
-            for d in r["decls"]:
-                d["res"] = _resolve(t, d["path"])
+    for t, st, r in zip(terms, devs, runs):
+        _snapshot(t, st, r)
         r["frames"] = bus.frames
     return runs
